@@ -155,11 +155,26 @@ def origin_of_place(fn, place, depth=12, _seen=None):
             o = Origin("deref", None, [o])
         elif isinstance(e, dict):
             if "f" in e:
+                # payload of a value that was built as a literal of this very variant on the way here
+                # (`tmp = Ok(x); .. (tmp as Ok).0`): the operand itself
+                if o.k == "variant" and o.kids:
+                    inner = o.kids[0].strip()
+                    if inner.k == "agg" and str(inner.a).endswith("::%s" % o.a) and e["f"] < len(inner.kids) and not str(inner.a).startswith("closure:"):
+                        o = inner.kids[e["f"]]
+                        continue
                 o = Origin("field", e.get("n") or str(e["f"]), [o])
             elif "idx" in e:
                 o = Origin("index", None, [o, origin_of_local(fn, e["idx"], depth - 1, _seen)])
             elif "v" in e:
-                o = Origin("variant", e.get("vn", e["v"]), [o])
+                vn = e.get("vn", e["v"])
+                s0 = o.strip()
+                if s0.k == "phi":
+                    # only the definitions that build this variant can reach a read of its payload
+                    lit = [k for k in s0.kids if k.strip().k == "agg" and "::" in str(k.strip().a)]
+                    keep = [k for k in s0.kids if not (k.strip().k == "agg" and "::" in str(k.strip().a) and not str(k.strip().a).endswith("::%s" % vn))]
+                    if lit and keep and len(keep) < len(s0.kids):
+                        o = keep[0] if len(keep) == 1 else Origin("phi", s0.a, keep)
+                o = Origin("variant", vn, [o])
             elif "cidx" in e:
                 o = Origin("index", None, [o, Origin("const", {"k": "int", "v": e["cidx"], "from_end": e["from_end"]})])
             else:
